@@ -13,6 +13,7 @@ import (
 	"strings"
 
 	metav1 "k8s.io/apimachinery/pkg/apis/meta/v1"
+	"k8s.io/apimachinery/pkg/types"
 	"k8s.io/apimachinery/pkg/apis/meta/v1/unstructured"
 
 	corev1alpha1 "package-operator.run/apis/core/v1alpha1"
@@ -563,14 +564,24 @@ func replayDiff(v report.Violation) string {
 
 func gcSystem(edits int, chain bool, stale int, longLived ...bool) *world.System {
 	ll := len(longLived) > 0 && longLived[0]
-	images := map[string]map[string]string{"v1": pkgFiles([]string{"a", "b"}, "1"), "v2": pkgFiles([]string{"a", "c"}, "1"), "v3": pkgFiles([]string{"a", "d"}, "1")}
+	// nb: a Package of the same name in another namespace (image n1{x,y}) is rolled out before
+	// the history starts; nothing the history does in namespace ns may touch its slices
+	nb := len(longLived) > 1 && longLived[1]
+	images := map[string]map[string]string{"v1": pkgFiles([]string{"a", "b"}, "1"), "v2": pkgFiles([]string{"a", "c"}, "1"), "v3": pkgFiles([]string{"a", "d"}, "1"), "n1": pkgFiles([]string{"x", "y"}, "1")}
 	return &world.System{
-		Name:       fmt.Sprintf("package updates edits=%d chain=%v stale=%d longLived=%v", edits, chain, stale, ll),
+		Name:       fmt.Sprintf("package updates edits=%d chain=%v stale=%d longLived=%v neighbour=%v", edits, chain, stale, ll, nb),
 		Persistent: ll,
 		Init: func() *world.World {
 			w := newPkgWorld(images, "v1")
 			if ll {
 				w.LongLived()
+			}
+			if nb {
+				w.MustCreate(&corev1alpha1.Package{ObjectMeta: metav1.ObjectMeta{Name: "p", Namespace: "other", Annotations: map[string]string{"packages.package-operator.run/chunking-strategy": "EachObject"}},
+					Spec: corev1alpha1.PackageSpec{Image: "n1"}})
+				if p := w.Reconcile(world.CtrlPackage, types.NamespacedName{Namespace: "other", Name: "p"}, nil); p.Err != nil {
+					panic("c14: neighbour package did not unpack: " + p.Err.Error())
+				}
 			}
 			w.Budget["edit"] = edits
 			w.Budget["stale"] = stale
@@ -739,6 +750,9 @@ func gcSystem(edits int, chain bool, stale int, longLived ...bool) *world.System
 						}
 					}
 				}
+				if r.Key.Namespace != pass.Key.Namespace {
+					out = append(out, world.Finding{Monitor: "slice-gc", Identity: "slice-of-another-namespace-deleted", Message: fmt.Sprintf("request #%d %s: the pass of %s/%s deletes an ObjectSlice in namespace %s", i, r, pass.Key.Namespace, pass.Key.Name, r.Key.Namespace)})
+				}
 				if len(refs) > 0 {
 					out = append(out, world.Finding{Monitor: "slice-gc", Identity: "referenced-slice-deleted", Message: fmt.Sprintf("request #%d %s deletes a slice still referenced by %v", i, r, refs)})
 				}
@@ -760,20 +774,21 @@ func runGC(o checks.Opts) *report.Report {
 		chain bool
 		stale int
 		ll    bool
+		nb    bool // a same-named Package in another namespace
 	}
 	// the long-lived system reaches every state on one operator process (any image to any image,
 	// so that a dropped slice can come back: v1 -> v2 -> v1)
-	cfgs := []cfg{{edits, chain, 0, false}, {1, true, 1, false}, {2, false, 0, true}}
+	cfgs := []cfg{{edits, chain, 0, false, false}, {1, true, 1, false, false}, {2, false, 0, true, false}, {1, true, 0, false, true}}
 	if !o.Quick() {
-		cfgs = append(cfgs, cfg{2, true, 1, false}, cfg{3, false, 0, true})
+		cfgs = append(cfgs, cfg{2, true, 1, false, false}, cfg{3, false, 0, true, false}, cfg{2, false, 0, false, true})
 	}
 	for i, c := range cfgs {
 		if o.Shards > 1 && i%o.Shards != o.Shard {
 			continue
 		}
-		sys := gcSystem(c.edits, c.chain, c.stale, c.ll)
+		sys := gcSystem(c.edits, c.chain, c.stale, c.ll, c.nb)
 		sys.MaxStates = 600000
-		osw.RunBFS(rep, sys, map[string]any{"edits": c.edits, "chain": c.chain, "stale": c.stale, "longLived": c.ll})
+		osw.RunBFS(rep, sys, map[string]any{"edits": c.edits, "chain": c.chain, "stale": c.stale, "longLived": c.ll, "neighbour": c.nb})
 	}
 	rep.Bounds["edits"] = edits
 	rep.Bounds["any_to_any"] = !chain
@@ -786,7 +801,8 @@ func replayGC(v report.Violation) string {
 	edits, _ := v.Params["edits"].(float64)
 	stale, _ := v.Params["stale"].(float64)
 	ll, _ := v.Params["longLived"].(bool)
-	return osw.ReplayBFS(gcSystem(int(edits), chain, int(stale), ll), v)
+	nb, _ := v.Params["neighbour"].(bool)
+	return osw.ReplayBFS(gcSystem(int(edits), chain, int(stale), ll, nb), v)
 }
 
 func init() {
@@ -802,9 +818,9 @@ func init() {
 			{Name: "inline-vs-sliced", Shards: func(string) int { return 4 }, Run: runDiff, Replay: replayDiff},
 			{Name: "slice-gc", Shards: func(t string) int {
 				if t == "thorough" {
-					return 5
+					return 7
 				}
-				return 3
+				return 4
 			}, Run: runGC, Replay: replayGC, Parallel: true},
 		},
 	})
